@@ -139,9 +139,9 @@ def body_bytes(body):
     if f == "empty":
         raw = b""
     elif f == "json":
-        raw = dumps(body["msgs"][0]).encode()
+        raw = (json.dumps(body["msgs"][0], ensure_ascii=False, indent=2) + "\n" if body.get("pretty") else dumps(body["msgs"][0])).encode()
     elif f == "batch":
-        raw = dumps(body["msgs"]).encode()
+        raw = (json.dumps(body["msgs"], ensure_ascii=False, indent=2) + "\n" if body.get("pretty") else dumps(body["msgs"])).encode()
     elif f in ("value", "object"):
         raw = dumps(body["v"]).encode()
     elif f == "text":
@@ -641,3 +641,258 @@ def shrink_candidates(case):
                 cands.append(dict(r, b=dict(b, body=nb)))
         for c in cands:
             yield dict(case, reqs=reqs[:k] + [copy.deepcopy(c)] + reqs[k + 1:])
+
+
+# ------------------------------------------------------------------------------- hardening sweep
+
+HOSTILE = ["%", "%s %d %(x)s", "{}", "{0} {x}", "\\", "\"", "'", "\r\n", "line  \u0085", "", "\\n\\u0000", "100%% {{}}"]
+BIG = ["x" * 1023, "y" * 1024, "z" * 1025, "w" * 65536, "k" * 100_000]
+# constants of the anchored modules fed back as values
+MAGIC_STR = ["message", "response", "event:", "data:", "event: ", "data: ", "unknown", "application/json", "text/event-stream",
+             "mcp-session-id", "Mcp-Session-Id", "Bearer ", "disconnected", "connection", "Parse error", "Request timeout",
+             "No JSON-RPC response in HTTP reply", "transport-detect", "2.0", "jsonrpc", "id", "error", "result", "method"]
+MAGIC_CODES = [-32603, -32700, -32000, 0, 202, 400]
+CT_VARIANTS = {
+    "json": ["application/json; charset=utf-8", "application/json;charset=UTF-8", " application/json ", "application/json; profile=\"x\""],
+    "sse": ["text/event-stream; charset=utf-8", "text/event-stream;charset=utf-8", "text/event-stream; x=y"],
+    # the code matches media types case-sensitively and by substring: these reach its "other" branch
+    "other": ["Application/JSON", "TEXT/EVENT-STREAM", "application/octet-stream", "text/html; charset=utf-8", "application/x-ndjson", ""],
+}
+HNAMES = ["mcp-session-id", "Mcp-Session-Id", "MCP-SESSION-ID"]
+SESSION_VALUES = ["0", "false", "%s", "{0}", "a" * 512, "sess-A", "None", "null"]
+EXC_MSGS = ["", "Server disconnected", "connection reset by peer", "%s {0} %d", "x" * 2000, "no route\nto host", "DISCONNECTED"]
+STATUS_SWEEP = [201, 203, 206, 299, 300, 304, 399, 400, 401, 403, 410, 429, 499, 502, 503, 599]
+TWIN_IDS = [{"i": 7}, {"s": "7"}, {"i": 0}, {"s": "0"}, {"s": ""}, None]
+CFGS = [
+    None,
+    {"bearer": "tok"},
+    {"bearer": "Bearer tok"},
+    {"bearer": ""},
+    {"env_bearer": "envtok"},
+    {"env_bearer": "Bearer envtok", "bearer": "tok"},
+    {"env_bearer": ""},
+    {"headers": {"X-Custom": "v", "Content-Type": "text/plain", "Accept": "*/*"}},
+    {"headers": {"Authorization": "Basic abc"}, "env_bearer": "envtok"},
+    {"headers": {"Mcp-Session-Id": "from-config-headers"}},
+    {"headers": {}},
+    {"mcr": 1},
+    {"mcr": 2, "bearer": "tok"},
+    {"env_bearer": "Bearer envtok"},
+    {"headers": {"user-agent": "ua/0", "authorization": "Basic z"}, "bearer": "tok"},
+    {"headers": {"User-Agent": "", "X-Empty": ""}, "bearer": "Bearer "},
+]
+
+
+def twin(i):
+    if i is None:
+        return {"s": "None"}
+    if "i" in i:
+        return {"s": str(i["i"])}
+    try:
+        return {"i": int(i["s"])}
+    except ValueError:
+        return {"s": i["s"] + " "}
+
+
+def tagged(kind, case):
+    case["hk"] = kind
+    return case
+
+
+def falsy_msgs(rid, tag, k):
+    """server messages with falsy members at every position the grammar allows"""
+    ms = [
+        {"jsonrpc": "2.0", "method": "notifications/message"},                                # no params
+        {"jsonrpc": "2.0", "method": "notifications/message", "params": {}},                  # empty params
+        {"jsonrpc": "2.0", "method": "notifications/message", "params": {"tag": tag, "v": [0, "", [], {}, False, None, 0.0]}},
+        {"jsonrpc": "2.0", "id": 0, "method": "ping"},                                        # server request with id 0
+        {"jsonrpc": "2.0", "id": "", "method": "roots/list", "params": {}},                   # ... with id ""
+    ]
+    out = [ms[(k + j) % len(ms)] for j in range(2)]
+    if out[0] == out[1]:
+        out = out[:1]
+    if rid is not None:
+        term = [
+            {"jsonrpc": "2.0", "id": idval(rid), "result": {}},
+            {"jsonrpc": "2.0", "id": idval(rid), "error": {"code": 0, "message": ""}},
+            {"jsonrpc": "2.0", "id": idval(rid), "error": {"code": 0, "message": "", "data": [0, "", [], {}, False][k % 5]}},
+            {"jsonrpc": "2.0", "id": idval(rid), "result": {"": "", "0": 0, "f": False, "n": None, "l": [], "d": {}}},
+        ]
+        out.append(term[k % len(term)])
+    # server requests with id 0 / "" must not collide with the request's own id
+    return [m for m in out if not ("method" in m and "id" in m and rid is not None and m["id"] == idval(rid))]
+
+
+def unusual_msgs(rid, tag, k):
+    """valid but unusual structure: extra members, unusual member order, duplicated notifications"""
+    n = {"params": {"tag": tag + "-dup"}, "method": "notifications/message", "jsonrpc": "2.0"}
+    ms = [n, dict(n), {"x-extra": {"a": [1]}, "method": "notifications/progress", "jsonrpc": "2.0", "params": {"tag": tag, "progressToken": 0, "progress": 0}}]
+    if rid is not None:
+        ms.append({"result": {"tag": tag}, "_meta": {"k": k}, "id": idval(rid), "jsonrpc": "2.0", "extra": None})
+    return ms
+
+
+def hostile_msgs(rid, tag, k):
+    t = HOSTILE[k % len(HOSTILE)]
+    m = MAGIC_STR[k % len(MAGIC_STR)]
+    ms = [{"jsonrpc": "2.0", "method": m if k % 2 else "notifications/message", "params": {"tag": tag, "t": t, m: m, t: [t]}}]
+    if rid is not None:
+        if k % 3 == 0:
+            ms.append({"jsonrpc": "2.0", "id": idval(rid), "error": {"code": MAGIC_CODES[k % len(MAGIC_CODES)], "message": [t, m][k % 2], "data": {"tag": tag, "t": t}}})
+        else:
+            ms.append({"jsonrpc": "2.0", "id": idval(rid), "result": {"tag": tag, "t": t, "m": m, "big": BIG[k % len(BIG)] if k % 4 == 1 else ""}})
+    return ms
+
+
+def hardening(rng, budget):
+    out = []
+    quick = budget == "quick"
+    n = 0
+
+    def one(kind, rid, b, **kw):
+        c = mkcase([mkreq(rid, b, as_dict=kw.pop("as_dict", False))], kw.pop("session0", None))
+        c.update(kw)
+        out.append(tagged(kind, c))
+
+    # 1/2/4/8: falsy, hostile and unusual payloads in every body form and on accepted / error statuses
+    for gen, kind in ((falsy_msgs, "falsy"), (hostile_msgs, "hostile"), (unusual_msgs, "unusual")):
+        for k in range(24 if quick else 120):
+            for form, ct in (("json", "json"), ("sse", "sse"), ("json", "absent")):
+                n += 1
+                rid = TWIN_IDS[n % len(TWIN_IDS)]
+                msgs = gen(rid, f"h{n}", k)
+                body = body_for(form, msgs) if form == "json" else sse_body(msgs, name=[None, "message", "response"][n % 3], dsp=bool(n % 2))
+                if form == "json" and n % 4 == 0:
+                    body = dict(body, pretty=True)
+                one(f"{kind}/{form}", rid, response_b([200, 200, 202, 404][n % 4], ct, body), as_dict=(n % 3 == 0))
+    # 2: type twins: the answer carries the id of the other JSON type
+    for status in (200, 404):
+        for form, ct in (("json", "json"), ("sse", "sse")):
+            for rid in TWIN_IDS[:5]:
+                n += 1
+                for mk in (result, error):
+                    one("twin-id", rid, response_b(status, ct, body_for(form, [mk(twin(rid), f"t{n}{mk.__name__}")])))
+    # 3: status sweep, content-type spellings, header-name spellings, session values, exception texts, methods
+    for st in STATUS_SWEEP:
+        for bclass in ("response", "error-null-id", "empty", "junk-object"):
+            n += 1
+            rid = REQ_IDS[n % 3]
+            one("status-sweep", rid, response_b(st, "json", matrix_body(bclass, "json", rid, f"u{n}"), [None, "sess-S"][n % 2]))
+    for ct, variants in CT_VARIANTS.items():
+        for v in variants:
+            for bclass in ("response", "notifs+response", "empty", "non-json"):
+                for form in ("json", "sse"):
+                    n += 1
+                    rid = REQ_IDS[n % 4]
+                    body = matrix_body(bclass, "sse" if form == "sse" else "json", rid, f"c{n}")
+                    b = response_b([200, 202][n % 2], ct, body)
+                    b["ctv"] = v
+                    one("content-type-spelling", rid, b)
+    for k, sv in enumerate(SESSION_VALUES):
+        for hn in HNAMES:
+            n += 1
+            b1 = response_b(200, "json", body_for("json", content("response", {"i": 1}, f"v{n}")), sv)
+            b1["hname"] = hn
+            b2 = response_b(200, "json", body_for("json", content("response", {"i": 2}, f"v{n}b")))
+            c = mkcase([mkreq({"i": 1}, b1), mkreq({"i": 2}, b2)], [None, "", "0", "cfg-session"][n % 4])
+            c["cfg"] = CFGS[n % len(CFGS)]
+            out.append(tagged("session-values", c))
+    for k, msg in enumerate(EXC_MSGS):
+        for exc in ("connect", "read_timeout", "protocol", "asyncio_timeout"):
+            n += 1
+            one("exception-text", REQ_IDS[n % 4], {"exc": exc, "msg": msg})
+    for k, m in enumerate(MAGIC_STR + HOSTILE):
+        n += 1
+        rid = REQ_IDS[n % 4]
+        c = mkcase([dict(mkreq(rid, response_b(200, "json", body_for("json", content("response", rid, f"m{n}")))), method=m or "x")])
+        out.append(tagged("method-names", c))
+    # 4: hostile text in error bodies
+    for k, t in enumerate(HOSTILE + BIG[-2:] + MAGIC_STR[:6]):
+        for st in (400, 500):
+            n += 1
+            one("hostile-error-body", REQ_IDS[n % 4], response_b(st, ["other", "absent", "json"][n % 3], {"form": "text", "text": t} if t else {"form": "empty"}))
+    # 1/6: configuration (headers, bearer token, env, semaphore size) x sequences; reuse of the parameters object
+    for k, cfg in enumerate(CFGS):
+        for w in range(2 if quick else 8):
+            word = tuple(rng.randrange(len(alphabet())) for _ in range(3))
+            c = sequence(word, rot=rng.randrange(6), session0=rng.choice([None, "sess-0", ""]))
+            c["cfg"] = cfg
+            c["reuse"] = bool(w % 2)
+            out.append(tagged("config" + ("/reuse" if c["reuse"] else ""), c))
+    # 6/7: something that is not a message on the write stream, between requests
+    for g in range(4):
+        for pos in range(3):
+            n += 1
+            c = sequence((0, 18, 3), rot=g)
+            c["reqs"].insert(pos, {"id": None, "garbage": g})
+            out.append(tagged("garbage-on-write-stream", c))
+    # 5: limits of the 100-slot streams, 1024 / 64 KiB sizes; backpressure with a late reader
+    for N in (99, 100, 101, 250):
+        for form, ct in (("json", "json"), ("sse", "sse")):
+            for rd in (0, 2048):
+                n += 1
+                rid = REQ_IDS[n % 2]
+                msgs = [notif(f"L{n}-{j}") for j in range(N - 1)] + [result(rid, f"L{n}")]
+                c = mkcase([mkreq(rid, response_b(200, ct, body_for(form, msgs)))])
+                c["read_delay"] = rd
+                out.append(tagged(f"limit/body-{N}", c))
+    for N in ((99, 101) if quick else (99, 100, 101, 150, 300)):
+        reqs = []
+        for j in range(N):
+            rid = {"i": 1000 + j} if j % 10 else None
+            reqs.append(mkreq(rid, response_b(200, "json", body_for("json", content("response", rid, f"Q{N}-{j}")), "sess-Q" if j == 50 else None)))
+        for rd in (0, 4096):
+            c = mkcase(reqs)
+            c["read_delay"] = rd
+            out.append(tagged(f"limit/queue-{N}", c))
+    for k, big in enumerate(BIG):
+        for form, ct in (("json", "json"), ("sse", "sse")):
+            n += 1
+            rid = REQ_IDS[n % 2]
+            r = result(rid, f"B{n}")
+            r["result"]["big"] = big
+            one("limit/size", rid, response_b(200, ct, body_for(form, [notif(f"B{n}-n", big[:1500]), r])))
+    # 9 + concurrency: several messages queued at once, answers of different latency, three tie orders;
+    # senders in concurrent tasks with start delays on the same tick grid
+    LATS = [0, 1, 2, 1024, 5119, 5120, 5121]
+    for k in range(150 if quick else 3000):
+        L = rng.randint(2, 4)
+        word = tuple(rng.randrange(len(alphabet())) for _ in range(L))
+        c = sequence(word, rot=rng.randrange(6), session0=rng.choice([None, None, "sess-0"]))
+        for r in c["reqs"]:
+            r["b"]["lat"] = rng.choice(LATS)
+            if rng.random() < 0.4:
+                r["delay"] = rng.choice([0, 1, 2, 1024, 5120])
+        c["tie"] = ["events", "timers", "io"][k % 3]
+        if rng.random() < 0.3:
+            c["cfg"] = {"mcr": rng.choice([1, 2, 3])}
+        out.append(tagged(f"latency/{c['tie']}", c))
+    # slow first answer, fast later ones (the classic reordering scenario), every tie
+    for tie in ("events", "timers", "io"):
+        for lat in (1, 1024, 5120):
+            c = sequence((0, 4, 2, 3), rot=0)
+            c["reqs"][0]["b"]["lat"] = lat
+            c["reqs"][1]["b"]["lat"] = lat // 2
+            c["tie"] = tie
+            out.append(tagged(f"latency/{tie}", c))
+    # 7: the transport used directly, with callers waiting on its per-id futures (alternate API)
+    for k in range(12 if quick else 200):
+        L = rng.randint(1, 3)
+        c = sequence(tuple(rng.randrange(len(alphabet())) for _ in range(L)), rot=rng.randrange(6))
+        c["direct"] = True
+        for r in c["reqs"]:
+            r["wait"] = rng.choice([0, 1, 1024, 4096])
+            r["b"]["lat"] = rng.choice([0, 1024, 2048])
+        out.append(tagged("direct-transport", c))
+    # 7: leaving the context while a POST is in flight
+    for lat in (1024, 8192):
+        for word in ((0,), (4, 18), (2, 2, 2)):
+            c = sequence(word, rot=1)
+            c["reqs"][-1]["b"]["lat"] = lat
+            c["leave_at"] = lat // 2
+            out.append(tagged("leave-in-flight", c))
+            d = copy.deepcopy(c)
+            d["direct"] = True
+            d["reqs"][-1]["wait"] = 10 * lat
+            out.append(tagged("leave-in-flight", d))
+    return out
